@@ -239,6 +239,9 @@ type Prop[C any] struct {
 	Rule string
 	Gen  func(t *rapid.T) C
 	Run  func(c C) *Result
+	// Track writes every case to $VERIF_OUT/current.json before running it, so that a case that kills the
+	// process (stack overflow, fatal error, race report with halt_on_error) is identified by the driver.
+	Track bool
 }
 
 // Tier returns "quick" or "thorough".
@@ -281,6 +284,10 @@ func (p Prop[C]) Check(t *testing.T) {
 func (p Prop[C]) CheckWith(t *testing.T, rec *Recorder) {
 	rapid.Check(t, func(rt *rapid.T) {
 		c := p.Gen(rt)
+		if p.Track {
+			b, _ := json.Marshal(map[string]any{"property": p.ID, "case": c})
+			os.WriteFile(filepath.Join(rec.OutDir(), "current.json"), b, 0o644)
+		}
 		res := p.Run(c)
 		rec.Record(c, res)
 		if fresh := Judge(rec, p.ID, res); len(fresh) > 0 {
